@@ -14,6 +14,8 @@ PROP = {'drive': ['Otl'], 'modules': ['SfntV.Props.C08'],
                        'C08_ctx_classpart', 'C08_st_roundtrip_seqcontext2', 'C08_st_roundtrip_chainedseqcontext2',
                        'C08_gtab_roundtrip_full', 'C08_gtab_header_v11', 'C08_readlookuplist_sound',
                        'C08_info_roundtrip', 'C08_info_roundtrip_nonvacuous', 'C08_gdef_roundtrip_value',
+                       'C08_reader_prefix_only_gsub', 'C08_reader_prefix_only_gpos', 'C08_codec_law',
+                       'C08_gsub_info_roundtrip', 'C08_gpos_info_roundtrip', 'C08_gsub_info_roundtrip_nonvacuous',
                        'C08_reader_cov_in_range_coverage', 'C08_reader_cov_in_range_gsub1_2',
                        'C08_reader_cov_in_range_gsub2_1_3_1', 'C08_reader_cov_in_range_gsub4_1',
                        'C08_reader_cov_in_range_gsub8_1', 'C08_reader_cov_in_range_gpos1_2',
@@ -59,11 +61,18 @@ PROP = {'drive': ['Otl'], 'modules': ['SfntV.Props.C08'],
              'reader on every accepted byte string (C08_readlookuplist_sound; subtables as positions). Not proved: '
              'that it accepts every encoder output (the 6000-entry budget can refuse a list the encoder wrote; the '
              'lookup-list theorem recovers the structure with the specification reader LL.specRead)',
-             'Info as one value (adapter for C01): C08_info_roundtrip is generic in the subtable codec (law dec (enc s '
-             '++ tail) = nf s) and reads the lookup list with the specification reader; the codec law is proved '
-             'here for GSUB 1.1 behind the real dispatcher (non-vacuity), the other subtable round trips are stated '
-             'for the exact bytes (no tail) and are not yet lifted to codecs; C08_gdef_roundtrip_value is '
-             'relational (class tables come back as functions)',
+             'Info as one value (adapter for C01): C08_gsub_info_roundtrip / C08_gpos_info_roundtrip over arbitrary mixes '
+             'of subtables (sum-type codecs gsubCodec / gposCodec behind the real dispatchers; the codec law follows '
+             'from the exact-bytes round trips and from prefix-only lemmas for every reader, Proofs/OtlMono.lean). '
+             'Open: (a) Info.read reads the lookup list with the specification reader LL.specRead; the Go reader is '
+             'proved to agree wherever it accepts (C08_readlookuplist_sound), but that it accepts every encoder '
+             'output (needs: lookups + subtables <= 6000, a converse of readLL_spec and its generalisation from '
+             'positions to decoded subtables) is only tied by the streams otl.ll.read / otl.gtab.read; (b) class-based '
+             'subtables (contexts format 2, GPOS 2.2) need their class tables in the reader normal form (hypothesis '
+             'PartGood of the ok-lemmas: that a decoded class list re-encodes and decodes to itself is not proved); '
+             '(c) no kernel-checked example with an extension lookup (needs > 64 KiB of subtables); the extension '
+             'path is covered by the theorem and exercised by the streams; (d) C08_gdef_roundtrip_value stays '
+             'relational (class tables come back as functions; no canonical entry list is proved)',
              'reader post-condition (the shape C07 assumes): C08_reader_cov_in_range_*: on every accepted byte string '
              'every coverage index is an index of the array delivered next to it (GSUB 1.2/2.1/3.1/4.1/8.1, GPOS '
              '1.2/3.1/4.1/6.1 mark+base, SeqContext1, ChainedSeqContext1); evaluated on the real readers by D '
